@@ -29,7 +29,7 @@ def family(sig):
 
 
 def gen(rng, tier):
-    kind = rng.choice(EXEC_SUBJECTS + COMB_SUBJECTS) if rng.random() < 0.9 else rng.choice(["retry", "poll", "f_zip", "f_or"])
+    kind = rng.choice(EXEC_SUBJECTS + COMB_SUBJECTS) if rng.random() < 0.7 else rng.choice(["retry", "poll", "poll", "throttle", "f_zip", "f_or", "f_and"])
     spec = {"kind": kind, "end": rng.choice(["val", "val", "exc", "ext-cancel"]),
             "dur": rng.choice([0, 0.05, 0.1, 0.3]), "blocker": rng.choice([0, 0, 0.1, 0.2]),
             "fail_first": rng.choice([0, 0, 1, 2]), "ext_at": rng.choice([0, 0.05, 0.15]),
@@ -39,18 +39,21 @@ def gen(rng, tier):
             "lib_inputs": rng.random() < 0.3, "settle": 30.0}
     nclients = rng.choice([2, 2, 3])
     clients = []
+    triggers = ["call-enter", "call-exit", "poll-enter", "poll-final", "cb-enter"]
     for c in range(nclients):
         ops = []
-        if rng.random() < 0.6:
-            ops.append(["sleep", rng.choice([0, 0.05, 0.1, 0.15, 0.2, 0.3])])
-        for _ in range(rng.choice([1, 2, 3, 4, 5])):
-            k = rng.choice(["cancel", "cancel", "cb", "cb", "cbraise", "result", "exception", "wait", "as_completed",
-                            "done", "done", "running", "sleep"])
-            if k == "sleep":
-                ops.append(["sleep", rng.choice([0.05, 0.1, 0.2])])
-            else:
-                ops.append([k])
+        for _ in range(rng.choice([1, 2, 3, 4])):
+            r = rng.random()
+            if r < 0.35:
+                ops.append(["await", rng.choice(triggers)])      # place the next op inside a window
+            elif r < 0.6:
+                ops.append(["sleep", rng.choice([0.05, 0.1, 0.15, 0.2, 0.3])])
+            k = rng.choice(["cancel", "cancel", "cancel", "cb", "cb", "cb", "cbraise", "result", "exception", "wait",
+                            "as_completed", "done", "done", "running"])
+            ops.append([k])
         clients.append(ops)
+    if rng.random() < 0.5:
+        clients[0].insert(0, [rng.choice(["cb", "cb", "cbraise"])])   # a callback registered up front
     spec["clients"] = clients
     spec["sim"] = runner.draw_sim_cfg(rng, est=500, stall_ok=True)
     spec["sim"]["horizon_s"] = 30000
@@ -85,8 +88,11 @@ def make_subject(spec, env):
     def work():
         calls[0] += 1
         env.rec("call", calls[0])
+        env.hit("call-enter")
         if spec["dur"]:
             sim.sleep(spec["dur"])
+        env.hit("call-exit")
+        sim.yield_point("user-call")
         if calls[0] <= spec["fail_first"] or spec["end"] == "exc":
             raise env.exc(("w", calls[0]), "ErrA")
         return ("w", calls[0])
@@ -117,6 +123,10 @@ def make_subject(spec, env):
                 for d in ds:
                     k = repr(d.result)
                     seen[k] = seen.get(k, 0) + 1
+                    env.hit("poll-enter")
+                    if seen[k] >= spec["poll_after"]:
+                        env.hit("poll-final")
+                    sim.yield_point("user-poll")   # the poll function is pre-emptible user code
                     if seen[k] >= spec["poll_after"]:
                         d.yield_result(("p", d.result))
 
@@ -217,6 +227,8 @@ def run(spec, env):
                 k = op[0]
                 if k == "sleep":
                     env.sleep(op[1])
+                elif k == "await":
+                    env.await_(op[1], 2.0)
                 elif k == "cancel":
                     i = env.rec("op", "cancel")
                     try:
@@ -236,6 +248,8 @@ def run(spec, env):
 
                     def cb(fut, me=me, k=k):
                         env.rec("cb-run", me, fut is f, fut.done(), observe(fut))
+                        env.hit("cb-enter")
+                        sim.yield_point("user-cb")   # user code is pre-emptible too
                         if k == "cbraise":
                             raise env.exc(("cb", me))
                     i = env.rec("op", "cb", me)
